@@ -249,7 +249,7 @@ def check(ctx):
                                  for a in tm.atoms(e_.live)) or any(
                         a is ap for x in rr.ret.walk() if x.op == "ite"
                         for a in tm.atoms(x.args[0]))
-                    ctx.ob("C14.2", tgt, not truthy,
+                    ctx.ob("C14.6", tgt, not truthy,
                            f"{tgt.name}: the separate angle argument is used "
                            f"whenever it is given (tested against None)"
                            if not truthy else
@@ -258,7 +258,7 @@ def check(ctx):
                            f"heading exactly 0 is rebuilt with the rotation "
                            f"vector `axis` itself (1 rad about the normal) — "
                            f"the pose is not left unchanged",
-                           key=f"C14.2:{member}:angle-given")
+                           key=f"C14.6:{member}:angle-given")
                 angle = exps[0].data["args"][1] if len(
                     exps[0].data["args"]) > 1 else dict(
                     exps[0].data["kwargs"]).get("angle")
